@@ -5,6 +5,7 @@ import vf
 
 SPEC = {
     "uses_gen": False,
+    "precompile_data": True,
     "cmd": "c22",
     "budget": (60, 600),
     "header": "From Sky Require Import Base.Uint Base.BytesPack Model.Framing.\nFrom Coq Require Import List Uint63.\nImport ListNotations.\nOpen Scope Z_scope.",
@@ -32,3 +33,15 @@ SPEC = {
 
 def run(ctx):
     vf.standard_run(ctx, SPEC)
+
+
+def replay(ctx, path):
+    """Re-run the stored case: the harness is deterministic in (seed, tier), so the
+    generation is repeated with the seed / tier recorded in the replay file and
+    evaluated again (the failing case reappears at the same index)."""
+    import json
+    d = json.load(open(path))
+    ctx.seed = int(d.get("seed", ctx.seed))
+    ctx.tier = d.get("tier", ctx.tier)
+    run(ctx)
+    return vf.finish(ctx)
